@@ -49,8 +49,11 @@ META = {
         "(C11_events_complete_refuted).  No-stale (the worklist only holds non-erased ops, so no pattern is invoked "
         "on an erased op) is proved for every IR model satisfying LiveLaws; for the heap model its structural half "
         "and the use-def half of its invariant (use lists name only live users, agree with the operand lists, have no "
-        "duplicates) are proved for all thirteen primitives, and C11_no_stale_model_partial leaves one hypothesis: "
-        "an invariant preserved by the primitives under which the region walk yields only live ops (tree consistency).  The worklist of the model is C12's abstract set-stack.  Tie to "
+        "duplicates) are proved for all thirteen primitives; the tree half (the region walk yields only live ops) is "
+        "proved for erase and the eight primitives that do not touch the tree, so C11_no_stale_model_covered holds "
+        "with no law hypothesis for pattern sets that only erase / replace uses / retype / edit block arguments / "
+        "notify; for arbitrary pattern sets C11_no_stale_model_partial leaves one hypothesis: a tree invariant "
+        "preserved by insert, inline_block, inline_region, move_region_contents_to_new_regions and create_block.  The worklist of the model is C12's abstract set-stack.  Tie to "
         "xdsl/pattern_rewriter.py, builder.py, rewriter.py: the action table is re-derived from the running code "
         "(every method on scratch IR) and scripted patterns are walked by the real driver in all 8 configurations "
         "with LIFO and seeded pop orders; invocation log, listener log, return value and final IR must be equal."),
@@ -64,12 +67,13 @@ META = {
         "rewriter."),
 }
 COQ_TARGETS = ["C11/Enc.vo", "C11/Proofs.vo", "C11/ProofsIR.vo", "C11/ProofsWL.vo", "C11/ProofsEv.vo",
-               "C11/ProofsLive.vo", "C11/ProofsInv.vo", "Props/C11.vo"]
+               "C11/ProofsLive.vo", "C11/ProofsInv.vo", "C11/ProofsTree.vo", "Props/C11.vo"]
 REQ = ["C11.Model", "C11.IR", "C11.Enc"]
 ASSUMPTIONS = [
     "patterns are sequences of PatternRewriter calls computed from the IR (plus an in-place attribute update made only when has_done_action is set); they respect the documented preconditions of the methods (no exception, no dangling uses, regions returned by move_region_contents_to_new_regions are re-attached within the match)",
     "terminating pattern sets: the fuel of the modelled while loops is a parameter; theorems are about runs that return",
-    "the tree half of InvLaws, the only law not proved for the heap model, needed by C11_no_stale_model_partial: some invariant under which `the region walk yields only live ops` and which all thirteen primitives preserve (parent/child consistency of the IR tree, property C01's subject); shown satisfiable on a minimal model.  Proved for the heap model for all thirteen primitives: StructLaws (only erase kills ops, and only op.walk(); inserted ops are alive), EvLaws (which ops a primitive can create, kill or change the operands of), and the use-def half of InvLaws (UInv: uses name live users, agree with the operand lists, no duplicates; insert for operations with new identifiers, replace_uses_with_if for two different values, as the rewriter calls them)",
+    "for C11_no_stale_model_partial (arbitrary pattern sets) one law is not proved for the heap model: the tree half of InvLaws for insert, inline_block, inline_region, move_region_contents_to_new_regions and create_block -- some invariant preserved by these primitives under which the region walk yields only live ops (parent/child consistency of the IR tree, property C01's subject).  Proved for the heap model: StructLaws and EvLaws (all thirteen primitives); the use-def half UInv of the invariant (all thirteen primitives; insert for operations with new identifiers, replace_uses_with_if for two different values, as the rewriter calls them); the tree half TInv for erase and the eight primitives that do not touch the tree, which gives C11_no_stale_model_covered without any law hypothesis for pattern sets restricted to erase / replace_all_uses_with / replace_uses_with_if / replace_value_with_new_type / block-argument edits / notify_op_modified",
+    "C11_no_stale_* are stated for pattern sets meeting the calls' documented preconditions (live_pre: the erased / replaced / notified op is live, the erased op has no dangling operand and does not enclose the owner of the rewritten region, insertion points exist, inserted ops are new) and for initial IR satisfying the heap invariants UInv / TInv (they hold for the empty module, C11_heap_invariants_hold_initially)",
     "FlagLaws (a use-replacing primitive over an empty / entirely filtered-out use list is the identity) is proved for the heap model (C11_flag_laws_hold_for_the_model)",
 ]
 TRUSTED = []
